@@ -41,16 +41,23 @@ def tree(name, items, arg="j"):
 PREAMBLE = '''
 from problog.program import PrologString
 from problog.errors import ProbLogError
+try:
+    from crosshair.tracers import NoTracing
+except ImportError:       # concrete replay outside CrossHair
+    import contextlib
+    NoTracing = contextlib.nullcontext
 
 ''' + tree("TOK", TOKENS) + "\n\n" + tree("OP2", BIN) + "\n\n" + tree("OP1", UN) + "\n\n" + tree("LF", LEAF) + "\n\n" + tree("HD", HEADS) + \
     "\n\n" + tree("BD", BODIES) + '''
 
 def total_ok(s):
     """'' unless parsing raises something that is not a ProbLog error"""
-    try:
-        list(PrologString(s))
-    except ProbLogError:
-        return ""
+    # s is concrete on every path (the selectors are decided): the real parser runs untraced, at native speed
+    with NoTracing():
+        try:
+            list(PrologString(s))
+        except ProbLogError:
+            return ""
     return ""
 
 
@@ -111,6 +118,11 @@ def text_of(form, o1, o2, u, u2, l1, l2):
 
 
 def roundtrip(s):
+    with NoTracing():
+        return _roundtrip(s)
+
+
+def _roundtrip(s):
     """'' if s is not accepted, or if printing its clauses and parsing the text again gives equal clauses; else a description"""
     try:
         c1 = list(PrologString(s))
@@ -163,22 +175,27 @@ def harnesses(tier, seed):
                          "s = %s + TOK(t1)\nif dot == 1:\n    s = s + '.'\nreturn total_ok(s)" % lit(TOKENS[i]),
                          {"part": "total", "first": TOKENS[i], "len": 2}))
         else:
-            for k in range(nt):
-                hs.append(_h("h_tot_%d_%d" % (i, k), ["t2", "dot"], [nt, 2],
-                             "s = %s + %s + TOK(t2)\nif dot == 1:\n    s = s + '.'\nreturn total_ok(s)" % (lit(TOKENS[i]), lit(TOKENS[k])),
-                             {"part": "total", "first": TOKENS[i] + TOKENS[k], "len": 3}))
-    # length-3 sample in the quick tier: first two tokens seeded, third symbolic
+            hs.append(_h("h_tot_%d" % i, ["t1", "t2", "dot"], [nt, nt, 2],
+                         "s = %s + TOK(t1) + TOK(t2)\nif dot == 1:\n    s = s + '.'\nreturn total_ok(s)" % lit(TOKENS[i]),
+                         {"part": "total", "first": TOKENS[i], "len": 3}))
+    # quick tier, length 3: the first token from a seeded subset, the other two symbolic (5202 paths per condition);
+    # length 4: three seeded tokens, the last symbolic
     if tier == "quick":
-        for n in range(40):
-            a, b = rng.choice(TOKENS), rng.choice(TOKENS)
-            hs.append(_h("h_tot3_%d" % n, ["t2", "dot"], [nt, 2],
-                         "s = %s + %s + TOK(t2)\nif dot == 1:\n    s = s + '.'\nreturn total_ok(s)" % (lit(a), lit(b)),
-                         {"part": "total", "first": a + b, "len": 3}))
+        for n, a in enumerate(rng.sample(TOKENS, 12)):
+            hs.append(_h("h_tot3_%d" % n, ["t1", "t2", "dot"], [nt, nt, 2],
+                         "s = %s + TOK(t1) + TOK(t2)\nif dot == 1:\n    s = s + '.'\nreturn total_ok(s)" % lit(a),
+                         {"part": "total", "first": a, "len": 3}))
         for n in range(30):
             a, b, c = rng.choice(TOKENS), rng.choice(TOKENS), rng.choice(TOKENS)
             hs.append(_h("h_tot4_%d" % n, ["t3", "dot"], [nt, 2],
                          "s = %s + TOK(t3)\nif dot == 1:\n    s = s + '.'\nreturn total_ok(s)" % lit(a + b + c),
                          {"part": "total", "first": a + b + c, "len": 4}))
+    else:
+        for n in range(120):
+            a, b = rng.choice(TOKENS), rng.choice(TOKENS)
+            hs.append(_h("h_tot4_%d" % n, ["t2", "t3", "dot"], [nt, nt, 2],
+                         "s = %s + TOK(t2) + TOK(t3)\nif dot == 1:\n    s = s + '.'\nreturn total_ok(s)" % lit(a + b),
+                         {"part": "total", "first": a + b, "len": 4}))
     # B. round trip
     nb, nu, nl = len(BIN), len(UN), len(LEAF)
     modes = ["clean"] + CLASSES
@@ -236,15 +253,18 @@ def main(tier, seed):
               "clauses. Inputs of the eight known-defect classes are excluded from the 'clean' conditions by a predicate over the "
               "selectors and checked by their own conditions (reported as known findings)")
     run.functions = FUNCS
-    run.assumptions = ["token alphabet of %d tokens; quick: all sequences of 2 tokens (+ optional final '.'), seeded sequences of 3 and 4 with the "
-                       "last token symbolic; thorough: all sequences of 3" % len(TOKENS),
+    run.assumptions = ["token alphabet of %d tokens; quick: all sequences of 2 tokens (+ optional final '.'), all sequences of 3 that start with one of 12 "
+                       "seeded tokens, 30 seeded 3-token prefixes with a symbolic 4th token; thorough: all sequences of 3, and of 4 for 120 seeded "
+                       "2-token prefixes" % len(TOKENS),
+                       "the selectors are the only symbolic values: once they are decided the text is concrete and the real parser / printer run "
+                       "untraced (crosshair.tracers.NoTracing) at native speed",
                        "round trip starts from TEXT (parse, print, parse): terms built directly with Term(...) carry no operator "
                        "information and print in functional notation that the parser does not accept for symbolic functors (recorded in DESIGN.md, not claimed)",
                        "CrossHair stops at the first counterexample of a condition: conditions are split per first token / outer operator / "
                        "known class so that one defect does not hide another class",
                        "characters outside the token alphabet, longer inputs, float printing precision: outside the claim"]
     hs = harnesses(tier, seed)
-    timeout = 45 if tier == "quick" else 600
+    timeout = 240 if tier == "quick" else 1200
     st = Stats()
     res, cpu = xh.run(hs, PREAMBLE, per_condition_timeout=timeout, per_module=4)
     byname = dict((h.name, h) for h in hs)
